@@ -288,7 +288,11 @@ fn exec_inner(c: &Crowd, res: &mut Res) {
     // phase 3: accept everything, every connect resolves
     let bound = c.cfg.r() + c.cfg.thr * (c.n as u32 + 2);
     for _ in 0..bound {
-        while try_accept!() {}
+        for _ in 0..c.n + 2 {
+            if !try_accept!() {
+                break;
+            }
+        }
         w.clean_round();
         w.settle();
         harvest!();
@@ -317,10 +321,18 @@ fn exec_inner(c: &Crowd, res: &mut Res) {
         }
     }
     for _ in 0..3 {
-        while try_accept!() {}
+        for _ in 0..c.n + 2 {
+            if !try_accept!() {
+                break;
+            }
+        }
         w.clean_round();
     }
-    while try_accept!() {}
+    for _ in 0..c.n + 2 {
+        if !try_accept!() {
+            break;
+        }
+    }
     // pairing
     let mut seen = BTreeSet::new();
     for (la, pa) in &accepted {
@@ -349,7 +361,8 @@ fn exec_inner(c: &Crowd, res: &mut Res) {
     for _ in 0..c.cfg.q() {
         w.clean_round();
         if let Some(l) = listener.as_ref() {
-            while let Poll::Ready(Ok((st, _))) = l.on().poll_accept(&mut engine::noop_cx()) {
+            for _ in 0..c.n + 2 {
+                let Poll::Ready(Ok((st, _))) = l.on().poll_accept(&mut engine::noop_cx()) else { break };
                 drop(w.scoped(1, st));
             }
         }
